@@ -93,14 +93,16 @@ def nontrivial_stats(trace_paths):
             e = json.loads(line)
             n += 1
             key = hashlib.md5(json.dumps({k: v for k, v in e.items() if k not in ("id", "out", "sess", "u_")}, sort_keys=True).encode()).hexdigest()
-            if e.get("ev") == "codec":
+            if e.get("ev") in ("codec", "evolve"):
                 triv = not e.get("out", {}).get("bytes")
             else:
                 triv = trivial(e)
             if not triv:
                 seen.add(key)
             if len(samples) < 3 and not triv and len(line) < 1500:
-                if e.get("ev") == "codec":
+                if e.get("ev") == "evolve":
+                    samples.append({k: e[k] for k in ("id", "S", "S2", "v", "prior")})
+                elif e.get("ev") == "codec":
                     samples.append({"id": e["id"], "cfg": {k: v for k, v in e["cfg"].items() if v}, "T": e["T"], "v": e["v"],
                                     "bytes": e["out"].get("bytes")})
                 else:
